@@ -2670,6 +2670,26 @@ namespace awkward {
 
   template <typename T, typename I>
   void
+  ForthMachineOf<T, I>::single_step_unwind(int64_t recursion_target_depth_top) {
+    // called just after a bytecodes_pointer_pop() in single-step mode
+    if (do_current_depth_ != 0  &&
+        recursion_current_depth_ != recursion_target_depth_top  &&
+        do_abs_recursion_depth() == recursion_current_depth_) {
+      if (do_loop_is_step()) {
+        if (stack_cannot_pop()) {
+          current_error_ = util::ForthError::stack_underflow;
+          return;
+        }
+        do_i() += stack_pop();
+      }
+      else {
+        do_i()++;
+      }
+    }
+  }
+
+  template <typename T, typename I>
+  void
   ForthMachineOf<T, I>::internal_run(bool single_step, int64_t recursion_target_depth_top) { // noexcept
     while (recursion_current_depth_ != recursion_target_depth_top) {
       while (bytecodes_pointer_where() < (
@@ -3044,6 +3064,7 @@ namespace awkward {
                 bytecodes_pointer_pop();
 
                 if (do_current_depth_ != 0  &&
+                    recursion_current_depth_ != recursion_target_depth_top  &&
                     do_abs_recursion_depth() == recursion_current_depth_) {
                   // End one step of a 'do ... loop' or a 'do ... +loop'.
                   if (do_loop_is_step()) {
@@ -3181,15 +3202,14 @@ namespace awkward {
               bytecodes_pointer_where()++;
               recursion_current_depth_ -= exitdepth;
               while (do_current_depth_ != 0  &&
-                     do_abs_recursion_depth() != recursion_current_depth_) {
+                     do_abs_recursion_depth() >= recursion_current_depth_) {
                 do_current_depth_--;
               }
 
               count_instructions_++;
               if (single_step) {
-                if (is_segment_done()) {
-                  bytecodes_pointer_pop();
-                }
+                bytecodes_pointer_pop();
+                single_step_unwind(recursion_target_depth_top);
                 return;
               }
 
@@ -3831,6 +3851,7 @@ namespace awkward {
         if (single_step) {
           if (is_segment_done()) {
             bytecodes_pointer_pop();
+            single_step_unwind(recursion_target_depth_top);
           }
           return;
         }
@@ -3841,6 +3862,7 @@ namespace awkward {
       bytecodes_pointer_pop();
 
       if (do_current_depth_ != 0  &&
+          recursion_current_depth_ != recursion_target_depth_top  &&
           do_abs_recursion_depth() == recursion_current_depth_) {
         // End one step of a 'do ... loop' or a 'do ... +loop'.
         if (do_loop_is_step()) {
